@@ -161,6 +161,28 @@ def run(ck):
             if dev > 5e-3 * (1 + float(np.abs(outs[1.0]).max())):
                 ck.violation(f'predictions change by {dev:.3g} when small-magnitude float32 inputs are rescaled by 1e-3 on {desc}', dict(desc, dev=dev),
                              key=json.dumps(dict(site='scale-invariance', iters0=False)))
+    # ---- a leaf just below the sub-sampling limit (4096 < n <= 5000 training rows, rows ordered along the first coordinate so that a block of leading rows is
+    #      not representative): the median is over the pairwise distances of ALL training points
+    for kern_big in (['l2'] if ck.tier == 'quick' else ['l2', 'l2_high_dim', 'l1']):
+        nb, db = 4300, 3
+        Xb = rng.standard_normal((nb, db)); Xb = Xb[np.argsort(Xb[:, 0])]; Xb[:, 0] *= 4.0
+        Yb = rng.standard_normal((nb, 1)); base_b = 2.0
+        xr.seed_all(1990 + ck.seed)
+        mb = xr.RealRFM(kernel=kern_big, iters=0, bandwidth=base_b, exponent=1.0, bandwidth_mode='adaptive', device='cpu', diag=False, verbose=False, tuning_metric='mse')
+        descb = dict(kind='near-subsample-limit', kernel=kern_big, n=nb, seed=ck.seed)
+        try:
+            with xr.quiet():
+                mb.fit((T(Xb), T(Yb)), (T(Xb[:50]), T(Yb[:50])), iters=0, reg=1e-1, verbose=False)
+        except Exception as e:
+            ck.violation(f'adaptive fit of a {nb}-row leaf raised {e!r}', dict(descb), key='fit-raise'); continue
+        Db = kernel_distance_matrix(mb, mb.centers)
+        offb = Db[~torch.eye(nb, dtype=torch.bool)]
+        medb = float(torch.sort(offb).values[(len(offb) - 1) // 2])
+        gotb = float(mb.kernel_obj.bandwidth)
+        ck.case(dict(descb, bandwidth=gotb, expected=base_b * medb), nontrivial=True); ck.count('leaf just below the sub-sampling limit')
+        if abs(gotb - base_b * medb) > (2e-6 if kern_big == 'l2_high_dim' else 1e-9) * base_b * medb:
+            ck.violation(f'stored bandwidth {gotb!r} != base bandwidth {base_b} x lower median {medb!r} of the pairwise distances of ALL {nb} training points (= {base_b * medb!r}) on {descb}',
+                         dict(descb, got=gotb, want=base_b * medb), key=json.dumps(dict(site='bandwidth', iters0=True)))
     res = ck.run_bool_cases('median', HEADER, cases, shard=40)
     bad = [meta[k] for k, v in res.items() if v is not True]
     ck.obligation(f'correspondence: stored bandwidth / base is a lower median of the recomputed distances for {len(cases)} fits (Coq lower_median_okb)',
